@@ -635,7 +635,12 @@ class CompoundInterval(Location):
             raise InvalidPositionException("Relative end must be within the size of the interval")
         # if start == end, then just return a simple interval
         elif relative_start == relative_end:
-            start_on_parent = self.relative_to_parent_pos(relative_start)
+            if 0 < relative_start == len(self):
+                # zero-length interval at the 3' end: it sits just past the last base
+                last_pos_on_parent = self.relative_to_parent_pos(relative_start - 1)
+                start_on_parent = last_pos_on_parent + 1 if self.strand == Strand.PLUS else last_pos_on_parent
+            else:
+                start_on_parent = self.relative_to_parent_pos(relative_start)
             return SingleInterval(
                 start_on_parent,
                 start_on_parent,
